@@ -25,17 +25,35 @@ func init() {
 		ti := verifhook.NewTypeInfos("protoconf")
 		ti.Put(&verifhook.TypeInfo{FullName: "protoconf.Item"})
 		var wg sync.WaitGroup
-		var progress int64
+		var progress, torn int64
 		for i := 0; i < readers; i++ {
 			wg.Add(1)
 			go func() {
 				defer wg.Done()
 				for k := 0; k < iters; k++ {
-					ti.Get(".Item")
+					// what a reader got from the registry is its own: it reads the fields after the lock is released
+					if info := ti.Get(".Item"); info != nil && info.ParentFilename != "" {
+						if (info.ParentFilename == "a.proto") != (info.FirstFieldOptionName == "A") {
+							atomic.AddInt64(&torn, 1)
+						}
+					}
 					atomic.AddInt64(&progress, 1)
 				}
 			}()
 		}
+		// one writer registers the SAME type again and again with two different descriptions (a type sheet whose name
+		// equals an imported type, the same type sheet in two workbooks)
+		wg.Add(1)
+		go func() {
+			defer wg.Done()
+			for k := 0; k < iters; k++ {
+				if k%2 == 0 {
+					ti.Put(&verifhook.TypeInfo{FullName: "protoconf.Item", ParentFilename: "a.proto", FirstFieldOptionName: "A"})
+				} else {
+					ti.Put(&verifhook.TypeInfo{FullName: "protoconf.Item", ParentFilename: "b.proto", FirstFieldOptionName: "B"})
+				}
+			}
+		}()
 		for i := 0; i < writers; i++ {
 			wg.Add(1)
 			go func(i int) {
@@ -50,6 +68,9 @@ func init() {
 		go func() { wg.Wait(); close(done) }()
 		select {
 		case <-done:
+			if atomic.LoadInt64(&torn) > 0 {
+				return "TORN"
+			}
 			return "ok"
 		case <-time.After(8 * time.Second):
 			p1 := atomic.LoadInt64(&progress)
